@@ -67,24 +67,43 @@ def _underlying(kind):
         ns = {}
         exec("def factory():\n    def twice_plus_one(x):\n        return x * 2 + 1\n    return twice_plus_one\n", ns)
         return ns["factory"]()
+    if kind == "closure-nan":
+        # a closure that captured a NaN (a "missing value" default) and a list: cell contents that do not compare equal
+        # to themselves, or only by identity
+        ns = {}
+        exec("def factory():\n    missing = float('nan')\n    extra = [1]\n    def f(x):\n        return (x * 2 + 1) if x == x else missing + extra[0]\n    return f\n", ns)
+        return ns["factory"]()
     return "x * 2 + 1"
+
+
+_SHARED = {}
+
+
+def _shared_underlying(kind):
+    """One function object per kind, wrapped again and again: the same function must give equal wrappers every time."""
+    if kind not in _SHARED:
+        _SHARED[kind] = _underlying(kind)
+    return _SHARED[kind]
 
 
 def _orders_case(k, rng):
     from histogrammar.util import CachedFcn, UserFcn, cached, named, serializable
 
-    kind = ("lambda", "def", "string", "nested-def")[(k // 2) % 4]
+    kind = ("lambda", "def", "string", "nested-def", "closure-nan")[(k // 2) % 5]
     failures = []
     counters = {"orders_cases": 1}
     wit = {"underlying": kind}
     ops = {"named": lambda f: named("nm", f), "cached": cached, "serializable": serializable}
-    for subset in (("named", "cached", "serializable"), ("named", "cached"), ("named", "serializable"), ("cached", "serializable")):
+    evaluate_between = (k // 10) % 2 == 1  # the wrapper is used (called) between two wrapping steps, as it is when an aggregator is filled
+    for subset in (("named", "cached", "serializable"), ("named", "cached"), ("named", "serializable"), ("cached", "serializable"), ("named", "serializable", "serializable"), ("named", "serializable", "cached", "serializable")):
         results = {}
-        for order in itertools.permutations(subset):
-            f = _underlying(kind)
+        for order in (itertools.permutations(subset) if len(set(subset)) == len(subset) else [subset]):
+            f = _shared_underlying(kind) if kind == "closure-nan" else _underlying(kind)
             try:
                 for o in order:
                     f = ops[o](f)
+                    if evaluate_between:
+                        f(3.0)
             except Exception as e:  # noqa: BLE001
                 results[order] = e
                 continue
